@@ -23,6 +23,10 @@ func init() {
 		t[0].HL, t[2].HL, t[4].HL = 1, 1, 1
 		return t
 	}
+	// selected files below unselected directories, several such directories in a row
+	extraTrees["c19nest"] = func() fsmodel.Tree {
+		return fsmodel.Tree{f("0first", 3, 4, t1), d("a", t1+1), f("a/f", 4, 5, t1+2), d("b", t1+3), d("b/c", t1+4), f("b/c/g", 5, 6, t1+5), d("e", t1+6), f("e/h", 6, 7, t1+7)}
+	}
 }
 
 func oracleC19(j *Job, sc Scn, x *Exec, res *XferRes, src, dst fsmodel.Tree, r *evid.Run) []Viol {
@@ -118,6 +122,15 @@ func driveC19(p *Pool, r *evid.Run) {
 		for _, pol := range pols {
 			for _, cp := range []int{1, 64} {
 				scns = append(scns, mk(pol, cp, sel))
+			}
+		}
+	}
+	for _, sel := range [][]string{{"a/f", "b/c/g", "e/h"}, {"a/f", "e/h"}, {"b/c/g"}, {"0first", "a/f", "b/c/g"}, {"b/c"}} {
+		for _, pol := range pols {
+			for _, cp := range []int{1, 64} {
+				sc := mk(pol, cp, sel)
+				sc.Src = "c19nest"
+				scns = append(scns, sc)
 			}
 		}
 	}
